@@ -127,7 +127,8 @@ def check_one(drv, ev, node, stack, kind, shrinkable=True):
                 except (DriverCrash, DriverTimeout):
                     return False
                 return oo.status == "violation" and oo.reason.split(":")[0] == head
-            small = shrink(node, fails, 1500)
+            ev.extra["shrunk_failures"] = ev.extra.get("shrunk_failures", 0) + 1
+            small = shrink(node, fails, 1500 if ev.extra["shrunk_failures"] <= 4 else 60)
             # Replay three times on a fresh driver before believing it.
             drv.restart()
             oks = 0
